@@ -476,7 +476,8 @@ PLANS["C17"] = dict(
     contracts=ALL_CONTRACTS, specs=ALL_SPECS, table="module",
     targets=[SRV + n for n in ("Server.close", "ThreadPoolServer._drop_connection", "ThreadPoolServer.close",
                                "Server._authenticate_and_serve_client", "OneShotServer._accept_method",
-                               "ThreadPoolServer._accept_method")],
+                               "ThreadPoolServer._accept_method", "Server._serve_client", "Server._handle_connection",
+                               "ThreadPoolServer._authenticate_and_build_connection")],
     lemmas=[], compositions=[], native_focus=[], design_ref="DESIGN.md section 4, C17",
     assumptions=COMMON_ASSUMPTIONS + [
         "PARTIAL, sequential: VERIFIED - Server.close is idempotent; the first call marks the server closed and inactive, attempts "
@@ -489,8 +490,11 @@ PLANS["C17"] = dict(
         "authentication; OneShotServer._accept_method serves one client and then closes the server on every exit; "
         "ThreadPoolServer._accept_method: once the pool owns the connection, the socket accept() tracked is tracked no longer, whatever "
         "socket object the authenticator handed back, and a client that could not be taken over leaves no entry either (fix F12)",
-        "ASSUMED interface contract: Server._serve_client (builds and serves the connection; its teardown is C11); the registrar's "
-        "unregister and the logger are dynamic objects",
+        "VERIFIED too: Server._serve_client builds the connection on a channel over a stream over exactly the accepted socket, with a "
+        "NEW configuration dict carrying the credentials the authenticator returned, hands exactly that connection to "
+        "_handle_connection once (which calls its serve_all once) and does not touch self.clients; SocketStream(sock) / Channel(stream) "
+        "are uninterpreted functions of their argument (the constructors only store it), Service._connect is a ghost event with any "
+        "outcome; the registrar's unregister and the logger are dynamic objects",
         "threads, queues, poll objects, sockets and the authenticator are dynamic objects: each method call is a pair of ghost "
         "events with any outcome; Thread.join / Queue.put are not given blocking semantics",
         "NOT covered (threads / OS, out of reach): that a shutdown makes the client observe end-of-stream promptly, descriptor "
@@ -504,7 +508,7 @@ PLANS["C16"] = dict(
     title="A server keeps serving good clients whatever bad clients do (partial: per-connection isolation and per-client bookkeeping)",
     contracts=ALL_CONTRACTS, specs=ALL_SPECS, table="module",
     targets=[PROTO + "__init__", "rpyc/lib/colls.py::RefCountingColl.__init__", "rpyc/lib/colls.py::WeakValueDict.__init__",
-             SRV + "Server._authenticate_and_serve_client", SRV + "ThreadPoolServer._accept_method"],
+             SRV + "Server._authenticate_and_serve_client", SRV + "ThreadPoolServer._accept_method", SRV + "Server._serve_client"],
     lemmas=[], compositions=[], native_focus=[], design_ref="DESIGN.md section 4, C16",
     assumptions=COMMON_ASSUMPTIONS + [
         "PARTIAL. VERIFIED: Connection.__init__ gives every connection its OWN, newly created and empty table of lent objects, "
@@ -513,7 +517,8 @@ PLANS["C16"] = dict(
         "references never leak from one client to another`; the per-client wrapper serves a client at most once, only after the "
         "authenticator (when there is one) accepted exactly its socket, and forgets the socket on every exit; in the thread-pool "
         "server, where a client is taken over inside the accept thread, no Exception raised while taking a client over escapes "
-        "ThreadPoolServer._accept_method (so a failing client cannot end the accept loop)",
+        "ThreadPoolServer._accept_method (so a failing client cannot end the accept loop); Server._serve_client builds the connection "
+        "around exactly the accepted socket with the credentials of exactly this client and serves exactly that connection, once",
         "what a misbehaving client can SEND is covered elsewhere for every byte string: decoding never crashes (C04 / C05 safety "
         "contracts: any input decodes to a plain value or raises; corrupt compressed data raises), every decoded message is "
         "answered or ends only that one connection (C07 / C08 / C11)",
